@@ -31,6 +31,7 @@ RULE = ("case = one word over rows (key incl. null, value null/non-null, mask bi
         "fixed-length / input-aligned functions on 1-2 columns, agg(list), ratio, subset_ratio, "
         "density; non-trivial = a group with >= 2 selected non-null values")
 ASSUMPTIONS = [
+    'q lists that are not ascending ([0.75, 0.25], [0.5, 0, 1]) compared per (label, q)',
     "n <= 4 rows (quick) / 5 (thorough), G <= 2-3",
     "variance bound: |var_lib - var_exact| <= 16*n*eps*max|x|^2/max(1,n-ddof) (one-pass formula; "
     "'proportional to the squared magnitude' in the statement)",
